@@ -16,6 +16,7 @@ func init() {
 			"PV-FRESH: samplesSet and the merge closures use per-call maps; no iterator hands out its own slice as r.Samples",
 			"PV-WHOLE: no index loop deletes from the slice it walks while advancing (literal comparison with bool/filter mode)",
 			"PV-PAIR operands matched by key; CH-SIB key of the empty label set (vector(c) vs an ungrouped aggregation); PV-RESET step stamped",
+			"PV-FRESH per-step tables of the binary operation",
 		},
 		NotDecided: []string{"floating-point results", "per-step alignment of the two sides beyond 'built with the same parameters'"},
 		Rules: func(r *Run) {
